@@ -305,6 +305,13 @@ def run_unit(u, scratch, want_trace=True):
         r["detail"] = (out + err)[-3000:]
         return r
     r["instrument_s"] = round(dt, 2)
+    # obligations of functions that the harness cannot reach are not obligations
+    # of this unit: remove those functions so that they are neither generated
+    # nor counted
+    gbf = os.path.join(d, "u.f.gb")
+    rc, out, err, dt, to = run(["goto-instrument", "--drop-unused-functions", gbi, gbf], 600, log)
+    if rc == 0 and not to and os.path.exists(gbf):
+        gbi = gbf
     flags = [] if u.nochecks else list(BASE_CHECKS)
     if u.no_overflow:
         flags = [f for f in flags if f not in ("--signed-overflow-check", "--pointer-overflow-check")]
@@ -326,7 +333,7 @@ def run_unit(u, scratch, want_trace=True):
         rc, out, err, dt, to = run_sharded(u, cbmc, flags, gbi, d, log)
     else:
         rc, out, err, dt, to = run(cbmc, u.timeout, log)
-    while u.shards <= 1 and (not to) and "too many addressed objects" in out and u.objbits < 14:
+    while u.shards <= 1 and (not to) and "too many addressed objects" in (out + err) and u.objbits < 14:
         # the object-id width is a pure capacity parameter: escalate and retry
         i = cbmc.index("--object-bits")
         u.objbits += 1
@@ -342,6 +349,9 @@ def run_unit(u, scratch, want_trace=True):
         r["wall_s"] = round(time.time() - t0, 2)
         return r
     results, msgs, status = parse_cbmc_text(out)
+    for t, m in msgs:
+        if m.startswith("SHARD-ERROR"):
+            r["detail"] = m
     if results is None or status is None or (not results and status != "success"):
         errs = [m for t, m in msgs if t == "ERROR"]
         r["reason"] = "tool error: " + (errs[-1] if errs else ("rc=%d" % rc))
@@ -424,7 +434,7 @@ def run_sharded(u, cbmc, flags, gbi, d, log):
     t0 = time.time()
     while True:
         rc, out, err, dt, to = run(["cbmc", gbi] + flags + ["--show-properties"], 300, log)
-        if "too many addressed objects" in out and u.objbits < 14:
+        if "too many addressed objects" in (out + err) and u.objbits < 14:
             u.objbits += 1
             flags[flags.index("--object-bits") + 1] = str(u.objbits)
             continue
@@ -440,7 +450,12 @@ def run_sharded(u, cbmc, flags, gbi, d, log):
         for n in g:
             c += ["--property", n]
         r = run(c, u.timeout, log)
-        if "too many addressed objects" in r[1]:
+        while "too many addressed objects" in (r[1] + r[2]) and u.objbits < 14:
+            u.objbits += 1
+            flags[flags.index("--object-bits") + 1] = str(u.objbits)
+            c[c.index("--object-bits") + 1] = str(u.objbits)
+            r = run(c, u.timeout, log)
+        if "too many addressed objects" in (r[1] + r[2]):
             return (r[0], "VERIFICATION ERROR object-bits", r[2], r[3], False)
         return r
     with ThreadPoolExecutor(max_workers=len(groups)) as ex:
@@ -475,6 +490,10 @@ def run_sharded(u, cbmc, flags, gbi, d, log):
         if r[4] or i < 0:
             # shard did not finish: its obligations are undecided (UNKNOWN)
             merged.append("\nshard function undecided\n" + "\n".join("[%s] %s: UNKNOWN" % (n, "timeout" if r[4] else "error") for n in g))
+            if not r[4]:
+                with open(log, "a") as lf:
+                    lf.write("\nSHARD ERROR rc=%s\n%s\n%s\n" % (r[0], txt[-1500:], r[2][-1500:]))
+                merged.insert(0, "SHARD-ERROR rc=%s: %s" % (r[0], (txt[-300:] + r[2][-300:]).replace("\n", " | ")))
             seen = True
             continue
         if i >= 0:
